@@ -194,6 +194,14 @@ impl GlobalMonoEnv {
         }
     }
 
+    pub fn enum_def_mut(&mut self, name: &TastIdent) -> Option<&mut EnumDef> {
+        if self.mono_enums.contains_key(name) {
+            self.mono_enums.get_mut(name)
+        } else {
+            self.genv.enum_def_mut(name)
+        }
+    }
+
     pub fn insert_struct(&mut self, def: StructDef) {
         self.mono_structs.insert(def.name.clone(), def);
     }
@@ -1250,6 +1258,46 @@ pub fn mono(genv: GlobalTypeEnv, file: core::File) -> (MonoFile, GlobalMonoEnv) 
             ret_ty,
             body,
         });
+    }
+
+    // Non-generic definitions are emitted as they stand, so the generic instances their
+    // fields mention (`struct Holder { v: Opt[int32] }`) are specialised here as well.
+    let struct_names: Vec<TastIdent> = m.monoenv.structs().map(|(n, _)| n.clone()).collect();
+    for name in struct_names {
+        let Some(fields) = m
+            .monoenv
+            .struct_def_mut(&name)
+            .map(|def| def.fields.clone())
+        else {
+            continue;
+        };
+        let fields = fields
+            .into_iter()
+            .map(|(field, ty)| (field, m.collapse_type_apps(&ty)))
+            .collect();
+        if let Some(def) = m.monoenv.struct_def_mut(&name) {
+            def.fields = fields;
+        }
+    }
+    let enum_names: Vec<TastIdent> = m.monoenv.enums().map(|(n, _)| n.clone()).collect();
+    for name in enum_names {
+        let Some(variants) = m
+            .monoenv
+            .enum_def_mut(&name)
+            .map(|def| def.variants.clone())
+        else {
+            continue;
+        };
+        let variants = variants
+            .into_iter()
+            .map(|(variant, tys)| {
+                let tys = tys.iter().map(|ty| m.collapse_type_apps(ty)).collect();
+                (variant, tys)
+            })
+            .collect();
+        if let Some(def) = m.monoenv.enum_def_mut(&name) {
+            def.variants = variants;
+        }
     }
 
     // Drop all generic enum defs to avoid Go backend panics
